@@ -12,8 +12,9 @@ run(f'git checkout -q --detach {head} && git checkout -- . && git clean -fdq -e 
 for d in sys.argv[2:]:
     d=d.rstrip('/'); name=os.path.basename(d); prop=name.split('-')[0]
     demo=open(f'{d}/demo_test.go').read()
-    m=re.search(r'package directory\s+(\S+?)/?\s',demo); pkg=m.group(1).rstrip('/')
-    m=re.search(r'-run\s+(\S+)',demo); tname=m.group(1)
+    m=re.search(r'package directory\s+(\S+?)/?\s',demo) or re.search(r'Goes in:\s+(\S+?)/?\s',demo); pkg=m.group(1).rstrip('/')
+    m=re.search(r'-run\s+(\S+)',demo); tname=m.group(1).strip("'\"")
+    if 'Stress' in demo: tname='^'+tname+'$' 
     res={'name':name,'property':prop,'pkg':pkg,'test':tname}
     dst=f'{W}/{pkg}/zz_seed_demo_test.go'
     shutil.copy(f'{d}/demo_test.go',dst)
